@@ -21,6 +21,32 @@ def sh(cmd, cwd=None, timeout=1800):
     p = subprocess.run(cmd, shell=True, cwd=cwd, env=env, capture_output=True, text=True, errors="replace", timeout=timeout)
     return p.returncode, p.stdout + p.stderr
 res = {'id': ID, 'k': K}
+if os.environ.get('SKIP_VALIDATE') == '1':
+    # final sweep: the stored change was validated before; only run the checks against it.
+    assert sh('git -C /repo status --porcelain')[1].strip() == '', 'repo not clean'
+    rc, out = sh(f'git -C /repo apply {patch}')
+    if rc != 0:
+        rc, out = sh(f'git -C /repo apply --3way {patch}')
+        sh('git -C /repo reset -q')
+    res['applies'] = rc == 0
+    res['checks'] = {}
+    try:
+        if rc == 0:
+            for c in checks:
+                t = time.time()
+                rc2, out2 = sh(f'bin/verif check {c} --tier quick', cwd='/verif')
+                viol = [l for l in out2.splitlines() if l.startswith('VIOLATION')]
+                first = [l for l in out2.splitlines() if l.startswith('  clause=')][:1]
+                res['checks'][c] = {'exit': rc2, 'violations': len(viol), 'wall_s': round(time.time() - t, 1), 'first': [f[:300] for f in first]}
+    finally:
+        sh('git -C /repo checkout -- .')
+        sh('git -C /repo clean -fdq')
+    mp = f'/verif/seeded/{ID}-{K}/meta.json'
+    if os.path.exists(mp):
+        m = json.load(open(mp))
+        m['final_sweep'] = {'applies': res['applies'], 'checks_run': res['checks'], 'detected_by': [c for c, r in res['checks'].items() if r['exit'] == 1]}
+        json.dump(m, open(mp, 'w'), indent=1)
+    print(json.dumps(res, indent=1)); sys.exit(0)
 wt = f'/tmp/sv_{ID}_{KOUT}'
 sh(f'git -C /repo worktree remove --force {wt}')
 rc, out = sh(f'git -C /repo worktree add --detach {wt} HEAD')
